@@ -79,6 +79,48 @@ def same_result(a, b):
     return a.shape == b.shape and bool(np.array_equal(a, b, equal_nan=(a.dtype.kind == 'f' and b.dtype.kind == 'f')))
 
 
+# Memory presentation of array arguments: layout x byte order.  astropy.io.fits hands out big-endian arrays, slices are strided.
+LAYOUTS = ['c', 'strided', 'fortran', 'offset', 'reversed']
+# SPPIXMASK tables: the global maskbits table is an input of skymask; (BADSKYCHI bit, REDMONSTER bit) per table
+TABLES = {'official': ('maskbits.par', 27, 28), 't1': ('maskbits_c17_t1.par', 3, 4), 't2': ('maskbits_c17_t2.par', 12, 30),
+          't3': ('maskbits_c17_t3.par', 28, 5)}
+
+
+def pick_pres(rng, swap_ok=True):
+    """[layout, byte-swapped] of one array argument; 60 % plain"""
+    if rng.random() < 0.6:
+        return ['c', False]
+    return [rng.choice(LAYOUTS), bool(swap_ok and rng.random() < 0.5)]
+
+
+def present(a, pres=None):
+    """a fresh array with the values of ``a`` in the requested memory layout / byte order (the caller's object)"""
+    a = np.array(a)
+    layout, swap = pres if pres else ('c', False)
+    if swap and a.dtype.itemsize > 1 and a.dtype.kind in 'iuf':
+        a = a.astype(a.dtype.newbyteorder())
+    if a.ndim == 0 or a.size == 0:
+        return a
+    if layout == 'fortran' and a.ndim < 2:
+        layout = 'offset'
+    if layout == 'strided':
+        big = np.zeros(a.shape[:-1] + (2 * a.shape[-1],), dtype=a.dtype)
+        v = big[..., ::2]
+        v[...] = a
+        return v
+    if layout == 'fortran':
+        return np.asfortranarray(a)
+    if layout == 'offset':
+        big = np.zeros(a.size + 3, dtype=a.dtype)
+        v = big[3:].reshape(a.shape)
+        v[...] = a
+        return v
+    if layout == 'reversed':
+        big = a[..., ::-1].copy()
+        return big[..., ::-1]
+    return a
+
+
 def unit_scale(rng, lo, hi, ordinary):
     """per-case scale ("units") factor: a third of the cases log-uniform over 10**lo .. 10**hi, else the ordinary range"""
     if rng.random() < 1.0 / 3.0:
@@ -135,6 +177,32 @@ def mask_pattern(rng, n, p_bad=None):
     return b
 
 
+class Presenter:
+    """hands out the caller's arrays in the memory presentation stored in the case and counts the effective ones"""
+
+    def __init__(self, out, fn, pres):
+        self.out, self.fn, self.pres, self.nonplain = out, fn, pres or {}, False
+
+    def __call__(self, name, a):
+        if a is None:
+            return None
+        pr = self.pres.get(name)
+        arr = present(a, pr)
+        if pr and arr.ndim and arr.size:
+            if pr[0] != 'c':
+                self.out.count('pres_layout_' + pr[0])
+                self.nonplain = True
+            if not arr.dtype.isnative:
+                self.out.count('pres_swapped_%s_%s' % (self.fn, name))
+                self.nonplain = True
+        return arr
+
+
+def native(a):
+    """plain contiguous native-byte-order copy (for the comparison call)"""
+    return None if a is None else np.array(a, dtype=a.dtype.newbyteorder('='))
+
+
 class Guard:
     """Byte copies of the caller's argument arrays; check() asserts the call wrote to none of them.
 
@@ -187,6 +255,11 @@ class C17(Check):
             'model, maxdev in the same unit), invvar 1e-12..1e12 with noisy stretches down to 1e-22 and exact zeros kept (aesthetics, '
             'skymask), flux amplitude 1e-17..1e6 (maskinterp y, aesthetics flux, median values), x spacing 1e-9..1e9; all oracles are '
             'relative to the data scale.  '
+            'Memory presentation: 40 % of the array arguments are strided / Fortran-ordered / offset / negative-stride views and half '
+            'of those byte-swapped (dtype.newbyteorder(), what astropy.io.fits returns), result = that of plain native arrays.  '
+            'skymask: the global SPPIXMASK table is switched between the calls of a case (official + 3 hand-written tables with the '
+            'sky labels on bits 3/4, 12/30, 28/5 and other labels on 27/28; via set_maskbits(file) or direct assignment), after one '
+            'priming call under the official table; expectation from the table current at the call; fixture table restored.  '
             'Every scalar option is presented per call in one of the scalar kinds a caller has (Python value; numpy int64/int32/'
             'uint8/intp scalar; 0-d array; whole float / numpy.float64 for axis and ngrow; bool / numpy.bool_ / 0-1 int for const and '
             'sticky; float / numpy.float64 / 0-d array / numpy.int64 for lower, upper, maxdev; str / numpy.str_ for method and '
@@ -237,6 +310,14 @@ class C17(Check):
         'aesthetics_flux_amp_below_1e-10_cases', 'aesthetics_flux_amp_above_1e4_cases',
         'median_amp_below_1e-10_cases', 'median_amp_above_1e4_cases',
         'skymask_invvar_below_1e-8_pixels', 'skymask_invvar_above_1e8_pixels',
+        'skymask_table_official_calls', 'skymask_table_t1_calls', 'skymask_table_t2_calls', 'skymask_table_t3_calls',
+        'skymask_table_set_via_file', 'skymask_table_set_via_assign', 'skymask_table_changed_between_calls',
+        'pres_layout_strided', 'pres_layout_fortran', 'pres_layout_offset', 'pres_layout_reversed',
+        'pres_swapped_reject_data', 'pres_swapped_reject_model', 'pres_swapped_reject_sigma', 'pres_swapped_reject_invvar',
+        'pres_swapped_reject_inmask', 'pres_swapped_interp_y', 'pres_swapped_interp_mask', 'pres_swapped_interp_x',
+        'pres_swapped_aesthetics_flux', 'pres_swapped_aesthetics_invvar', 'pres_swapped_median_a',
+        'median_swapped_float_1d_filter_calls', 'median_swapped_float_2d_filter_calls',
+        'pres_swapped_skymask_invvar', 'pres_swapped_skymask_ormask', 'pres_swapped_skymask_andmask',
     ) + KIND_COUNTERS
 
     # ---------------------------------------------------------------- setup
@@ -253,6 +334,12 @@ class C17(Check):
         if not os.path.exists(FIXTURE):
             raise RuntimeError('fixture missing: ' + FIXTURE)
         SD.maskbits = SD.set_maskbits(maskbits_file=FIXTURE)      # never let it download
+        self._tables, self._table_files = {}, {}
+        for name, (fn, b1, b2) in TABLES.items():
+            path = os.path.join(VERIF, 'fixtures', fn)
+            t = SD.set_maskbits(maskbits_file=path)
+            assert t['SPPIXMASK']['BADSKYCHI'] == b1 and t['SPPIXMASK']['REDMONSTER'] == b2, name
+            self._tables[name], self._table_files[name] = t, path
         assert SD.maskbits['SPPIXMASK']['BADSKYCHI'] == BADSKYCHI and SD.maskbits['SPPIXMASK']['REDMONSTER'] == REDMONSTER
         self.rec.wrap(M, 'djs_reject')
         self.rec.wrap(M, 'djs_median')
@@ -396,6 +483,7 @@ class C17(Check):
         # how the masks travel through the history: fresh copies, the returned array itself handed back as outmask
         # (as iterfit does), or one array serving as inmask and as the first outmask
         case['alias'] = rng.choice(['copy', 'reuse', 'reuse', 'outmask_is_inmask'])
+        case['pres'] = {k: pick_pres(rng) for k in ('data', 'model', 'sigma', 'invvar', 'inmask', 'outmask')}
         # scalar kind of every scalar option, drawn per call of the history (nsteps calls + the repeated one)
         case['kinds'] = []
         for _ in range(nsteps + 1):
@@ -473,7 +561,8 @@ class C17(Check):
             entry = 'maskinterp1'
         return {'kind': 'interp', 'shape': shape, 'y': y.tolist(), 'mask': mask, 'mask_dtype': mdt, 'x': x,
                 'xorder': xorder, 'axis': axis, 'const': rng.random() < 0.5, 'entry': entry, 'more': more,
-                'const_kind': pick_kind(rng, 'const'), 'axis_kind': 'py' if axis is None else pick_kind(rng, 'axis')}
+                'const_kind': pick_kind(rng, 'const'), 'axis_kind': 'py' if axis is None else pick_kind(rng, 'axis'),
+                'pres': {k: pick_pres(rng) for k in ('y', 'mask', 'x')}}
 
     def gen_aesthetics(self, rng):
         g = np_rng(rng)
@@ -499,7 +588,8 @@ class C17(Check):
         return {'kind': 'aesthetics', 'flux': flux.tolist(), 'invvar': ivar.tolist(), 'dtype': dt,
                 'method': rng.choice(['traditional', 'noconst', 'mean', 'nothing']),
                 'more': [rng.choice(['traditional', 'noconst', 'mean', 'nothing']) for _ in range(rng.choice([0, 1, 2]))],
-                'kinds': [pick_kind(rng, 'method') for _ in range(3)]}
+                'kinds': [pick_kind(rng, 'method') for _ in range(3)],
+                'pres': {k: pick_pres(rng) for k in ('flux', 'invvar')}}
 
     def gen_median(self, cls, rng):
         g = np_rng(rng)
@@ -531,7 +621,9 @@ class C17(Check):
         wmax = 2 * min(shape) - 1                       # widest window one reflection can fill
         more = [rng.choice([v for v in (1, 3, 5, 7, 9, 11, 13) if v <= wmax]) for _ in range(rng.choice([0, 1, 1]))]
         return {'kind': 'median', 'shape': shape, 'a': a.tolist(), 'width': w, 'dtype': dt, 'more': more,
-                'kinds': [{'width': pick_kind(rng, 'width'), 'boundary': pick_kind(rng, 'boundary')} for _ in range(2)]}
+                'kinds': [{'width': pick_kind(rng, 'width'), 'boundary': pick_kind(rng, 'boundary')} for _ in range(2)],
+                # byte-swapped (FITS-native) float vectors included: F-R2, repaired in bc90e7f (pydl/median.py converts to native order)
+                'pres': {'a': pick_pres(rng)}}
 
     def gen_skymask(self, rng):
         g = np_rng(rng)
@@ -541,25 +633,37 @@ class C17(Check):
         dt = rng.choice(['int16', 'int32', 'int32', 'int64', 'uint64'])
         lo, hi = INT_RANGE[dt]
         pflag = rng.choice([0.0, 0.03, 0.1, 0.3])
+        # the global maskbits table is an input: one table per call of the history (half of the cases stay on the official one)
+        nmore = rng.choice([0, 1, 1, 2])
+        if rng.random() < 0.5:
+            tabs = ['official'] * (1 + nmore)
+        else:
+            tabs = [rng.choice(sorted(TABLES)) for _ in range(1 + nmore)]
+        pool = sorted({b for t in tabs for b in TABLES[t][1:]})          # sky bits under any table of this case
+        poolmask = sum(1 << b for b in pool)
+        others = sorted({b for t in TABLES for b in TABLES[t][1:]} - set(pool))   # sky bits of tables NOT in use: distractors
         mask = []
         for r in range(nr):
             row = []
             for c in range(npx):
                 v = 0
                 if rng.random() < pflag:
-                    v |= 1 << rng.choice([BADSKYCHI, REDMONSTER, REDMONSTER])
+                    v |= 1 << rng.choice(pool)
                     if rng.random() < 0.1:
-                        v |= (1 << BADSKYCHI) | (1 << REDMONSTER)
+                        t = rng.choice(tabs)
+                        v |= (1 << TABLES[t][1]) | (1 << TABLES[t][2])
                 if rng.random() < 0.35:
-                    v |= 1 << rng.choice([0, 22, 23, 23, 24, 25, 26, 26, 29, 29, 30])
+                    v |= 1 << rng.choice([0, 22, 23, 23, 24, 25, 26, 26, 29, 29, 30] + others)
                 if rng.random() < 0.1:
-                    v |= rng.getrandbits(27) | (rng.getrandbits(3) << 29)       # everything but bits 27, 28
+                    v |= rng.getrandbits(31)
+                if rng.random() < 0.45:
+                    v &= ~poolmask                      # distractor-only pixel
                 row.append(v)
             mask.append(row)
         # flags at row ends: last pixel of one row / first pixel of the next must not leak across rows
         if rng.random() < 0.6:
             r = rng.randrange(nr)
-            mask[r][rng.choice([0, npx - 1])] |= 1 << rng.choice([BADSKYCHI, REDMONSTER])
+            mask[r][rng.choice([0, npx - 1])] |= 1 << rng.choice(pool)
         for r in range(nr):
             for c in range(npx):
                 v = mask[r][c]
@@ -590,9 +694,11 @@ class C17(Check):
         return {'kind': 'skymask', 'shape': [nr, npx], 'ivar': ivar.ravel().tolist(), 'mask': mask, 'dtype': dt,
                 'ngrow': ngrow, 'ormask_none': rng.random() < 0.04,
                 'andmask': rng.choice(['none', 'zeros', 'allflags']),
-                'ngrow_kind': pick_kind(rng, 'ngrow'),
+                'ngrow_kind': pick_kind(rng, 'ngrow'), 'table': tabs[0], 'via': rng.choice(['file', 'assign']),
+                'pres': {k: pick_pres(rng) for k in ('invvar', 'ormask', 'andmask')},
                 'more': [{'ngrow': rng.choice([0, 1, 2, 3, 5]), 'ormask_none': rng.random() < 0.04,
-                          'ngrow_kind': pick_kind(rng, 'ngrow')} for _ in range(rng.choice([0, 1, 1, 2]))]}
+                          'ngrow_kind': pick_kind(rng, 'ngrow'), 'table': tabs[1 + k], 'via': rng.choice(['file', 'assign'])}
+                         for k in range(nmore)]}
 
     # ------------------------------------------------------------------ run
     def run(self, case, out):
@@ -620,12 +726,13 @@ class C17(Check):
         if alias == 'outmask_is_inmask':
             prev0 = inmask0.copy()
         # the caller's objects: created once, handed to every call of the history
-        data = data0.copy()
-        models = [m.copy() for m in models0]
-        sigma = sigma0.copy() if isinstance(sigma0, np.ndarray) else sigma0
-        invvar = None if invvar0 is None else invvar0.copy()
-        inmask = None if inmask0 is None else inmask0.copy()
-        prev_obj = None if prev0 is None else prev0.copy()
+        P = Presenter(out, 'reject', case.get('pres'))
+        data = P('data', data0)
+        models = [P('model', m) for m in models0]
+        sigma = P('sigma', sigma0) if isinstance(sigma0, np.ndarray) else sigma0
+        invvar = P('invvar', invvar0)
+        inmask = P('inmask', inmask0)
+        prev_obj = P('outmask', prev0)
         if alias == 'outmask_is_inmask':
             prev_obj = inmask                            # the very same array as inmask and as outmask
         grow, sticky = case['grow'], case['sticky']
@@ -645,7 +752,7 @@ class C17(Check):
             model, model0 = models[mi], models0[mi]
             prev = prev0
             if alias == 'copy' or prev_obj is None:
-                prev_in = None if prev0 is None else prev0.copy()
+                prev_in = P('outmask', prev0)
             else:
                 prev_in = prev_obj                       # the array returned by the previous call (or the initial one) itself
                 out.count('reject_aliased_mask_reuse_steps')
@@ -666,16 +773,16 @@ class C17(Check):
                                             sticky=as_kind(sticky, kd.get('sticky', 'py')), **kwk)
             out.count('reject_calls')
             guard.check(step=step, sticky=sticky, alias=alias)
-            if any(v != 'py' for v in kd.values()):
+            if P.nonplain or any(v != 'py' for v in kd.values()):
                 kwp = dict(kw)
                 for k in ('sigma', 'invvar'):
                     if isinstance(kwp.get(k), np.ndarray):
                         kwp[k] = (sigma0 if k == 'sigma' else invvar0).copy()
                 pm, pq = self.M.djs_reject(data0.copy(), model0.copy(), outmask=None if prev0 is None else prev0.copy(),
                                            inmask=None if inmask0 is None else inmask0.copy(), grow=grow, sticky=sticky, **kwp)
-                out.expect(same_result(mask, pm) and bool(qdone) == bool(pq), 'reject-scalar-kind',
-                           'scalar options given as %r give a different (mask, qdone) than the plain Python values' % (kd,),
-                           step=step, kinds=kd)
+                out.expect(same_result(mask, pm) and bool(qdone) == bool(pq), 'reject-differs-from-plain-call',
+                           'scalar options given as %r / arrays presented as %r give a different (mask, qdone) than plain values in plain '
+                           'native arrays' % (kd, P.pres), step=step, kinds=kd)
                 out.count('scalar_kind_calls_compared_with_plain_call')
             mask = np.asarray(mask)
             if not out.expect(mask.shape == shape, 'reject-shape', 'mask shape %r for data shape %r' % (mask.shape, shape)):
@@ -775,8 +882,9 @@ class C17(Check):
         # pristine values for the reference; y / x are the caller's arrays and are handed to EVERY call of the history
         y0 = np.array(case['y'], dtype=np.float64).reshape(shape)
         x0 = None if case['x'] is None else np.array(case['x'], dtype=np.float64).reshape(shape)
-        y = y0.copy()
-        x = None if x0 is None else x0.copy()
+        P = self._interp_P = Presenter(out, 'interp', case.get('pres'))
+        y = P('y', y0)
+        x = P('x', x0)
         steps = [{'mask': case['mask'], 'axis': case['axis'], 'const': case['const'], 'axis_kind': case.get('axis_kind', 'py'),
                   'const_kind': case.get('const_kind', 'py')}] + list(case.get('more', []))
         nontrivial = False
@@ -807,7 +915,7 @@ class C17(Check):
         """one call on the caller's arrays y / x with a fresh mask object; oracle from the pristine y_in / x_in"""
         shape = y_in.shape
         nd = len(shape)
-        mask = m_in.copy()
+        mask = self._interp_P('mask', m_in)
         npaxis = 0 if nd == 1 else nd - 1 - axis
         guard = Guard(out, 'interp').add('yval', y).add('mask', mask).add('xval', x)
         ck = as_kind(const, const_kind)
@@ -825,9 +933,9 @@ class C17(Check):
         else:
             axis_kind = 'py'
         got = call(y, mask, x, as_kind(axis, axis_kind), ck)
-        if axis_kind != 'py' or const_kind != 'py':
+        if self._interp_P.nonplain or axis_kind != 'py' or const_kind != 'py':
             plain = call(y_in.copy(), m_in.copy(), None if x_in is None else x_in.copy(), axis, const)
-            out.expect(same_result(got, plain), 'interp-scalar-kind',
+            out.expect(same_result(got, plain), 'interp-differs-from-plain-call',
                        'axis given as %s / const as %s gives a different result than the plain Python values' % (axis_kind, const_kind),
                        step=step, axis=axis)
             out.count('scalar_kind_calls_compared_with_plain_call')
@@ -906,7 +1014,8 @@ class C17(Check):
         dt = case['dtype']
         f_in = np.array(case['flux'], dtype=np.float64).astype(dt)         # pristine
         iv_in = np.array(case['invvar'], dtype=np.float64).astype(dt)
-        flux, ivar = f_in.copy(), iv_in.copy()                               # the caller's arrays, used by every call
+        P = Presenter(out, 'aesthetics', case.get('pres'))
+        flux, ivar = P('flux', f_in), P('invvar', iv_in)                       # the caller's arrays, used by every call
         good = iv_in != 0
         b = f_in[good].astype(np.float64)
         out.count('aesthetics_good_pixels_invvar_below_1e-8', int((good & (np.abs(iv_in) <= 1e-8)).sum()))
@@ -924,9 +1033,9 @@ class C17(Check):
             out.count('kind_method_' + mk)
             got = np.asarray(self.S2.aesthetics(flux, ivar, method=as_kind(method, mk)))
             guard.check(step=step, method=method)
-            if mk != 'py':
+            if mk != 'py' or P.nonplain:
                 plain = self.S2.aesthetics(f_in.copy(), iv_in.copy(), method=method)
-                out.expect(same_result(got, plain), 'aesthetics-scalar-kind',
+                out.expect(same_result(got, plain), 'aesthetics-differs-from-plain-call',
                            'method given as numpy.str_ gives a different result than the plain str', step=step, method=method)
                 out.count('scalar_kind_calls_compared_with_plain_call')
             if step:
@@ -947,7 +1056,8 @@ class C17(Check):
     def run_median(self, case, out):
         shape = tuple(case['shape'])
         a_in = np.array(case['a'], dtype=np.float64).reshape(shape).astype(case['dtype'])     # pristine
-        a = a_in.copy()                                                                        # the caller's array
+        P = Presenter(out, 'median', case.get('pres'))
+        a = P('a', a_in)                                                                       # the caller's array
         nontrivial = False
         ma = amplitude(a_in)
         if 0 < ma < 1e-10:
@@ -961,11 +1071,13 @@ class C17(Check):
             wk, bk = kd.get('width', 'py'), kd.get('boundary', 'py')
             out.count('kind_width_' + wk)
             out.count('kind_boundary_' + bk)
+            if w >= 3 and a.dtype.kind == 'f' and not a.dtype.isnative:
+                out.count('median_swapped_float_%dd_filter_calls' % a.ndim)
             got = np.asarray(self.M.djs_median(a, width=as_kind(w, wk), boundary=as_kind('reflect', bk)))
             guard.check(step=step, width=w)
-            if wk != 'py' or bk != 'py':
+            if wk != 'py' or bk != 'py' or P.nonplain:
                 plain = self.M.djs_median(a_in.copy(), width=w, boundary='reflect')
-                out.expect(same_result(got, plain), 'median-scalar-kind',
+                out.expect(same_result(got, plain), 'median-differs-from-plain-call',
                            'width given as %s / boundary as %s gives a different result than the plain Python values' % (wk, bk),
                            step=step, width=w)
                 out.count('scalar_kind_calls_compared_with_plain_call')
@@ -1003,15 +1115,48 @@ class C17(Check):
             andmask = np.zeros((nr, npx), dtype=dt)
         elif case['andmask'] == 'allflags':
             andmask = np.full((nr, npx), (1 << BADSKYCHI) | (1 << REDMONSTER) if dt != 'int16' else 1, dtype=dt)
-        ivar, om = iv_in.copy(), om_in.copy()                                # the caller's arrays, used by every call
-        F = (1 << BADSKYCHI) | (1 << REDMONSTER)
+        P = Presenter(out, 'skymask', case.get('pres'))
+        ivar, om = P('invvar', iv_in), P('ormask', om_in)                    # the caller's arrays, used by every call
+        andmask0, andmask = andmask, P('andmask', andmask)
         nontrivial = False
+        try:
+            # every case starts from the same global state: one call under the official table (so that a replay of the
+            # case alone sees the same call history as the shard did)
+            self._use_table('official', 'assign')
+            pv = np.array([[1.0, 2.0, 3.0]])
+            pg = np.asarray(self.S1.skymask(pv, None, np.array([[1 << BADSKYCHI, 0, 0]], dtype='int32'), ngrow=0))
+            out.expect(np.array_equal(pg, [[0.0, 2.0, 3.0]]), 'skymask-not-zeroed', 'priming call under the official table is wrong')
+            self._run_skymask_history(case, out, ivar, om, andmask, iv_in, om_in, andmask0, P)
+        finally:
+            self._use_table('official', 'assign')                           # restore the fixture table
+
+    def _use_table(self, name, via):
+        import copy
+        if via == 'file':
+            self.SD.maskbits = self.SD.set_maskbits(maskbits_file=self._table_files[name])
+        else:
+            self.SD.maskbits = copy.deepcopy(self._tables[name])
+
+    def _run_skymask_history(self, case, out, ivar, om, andmask, iv_in, om_in, andmask0, P):
+        nr, npx = case['shape']
+        dt = case['dtype']
+        nontrivial = False
+        current = 'official'
         out.count('skymask_invvar_below_1e-8_pixels', int(((iv_in > 0) & (iv_in < 1e-8)).sum()))
         out.count('skymask_invvar_above_1e8_pixels', int((iv_in > 1e8).sum()))
-        steps = [{'ngrow': case['ngrow'], 'ormask_none': case['ormask_none'], 'ngrow_kind': case.get('ngrow_kind', 'py')}] \
-            + list(case.get('more', []))
+        steps = [{'ngrow': case['ngrow'], 'ormask_none': case['ormask_none'], 'ngrow_kind': case.get('ngrow_kind', 'py'),
+                  'table': case.get('table', 'official'), 'via': case.get('via', 'assign')}] + list(case.get('more', []))
         for step, st in enumerate(steps):
             ngrow = st['ngrow']
+            table, via = st.get('table', 'official'), st.get('via', 'assign')
+            self._use_table(table, via)
+            out.count('skymask_table_%s_calls' % table)
+            out.count('skymask_table_set_via_' + via)
+            if table != current:
+                out.count('skymask_table_changed_between_calls')
+            current = table
+            b1, b2 = TABLES[table][1:]
+            F = (1 << b1) | (1 << b2)
             nk = st.get('ngrow_kind', 'py')
             ngrow_k = as_kind(ngrow, nk)
             out.count('kind_ngrow_' + nk)
@@ -1027,21 +1172,22 @@ class C17(Check):
                 continue
             got = np.asarray(self.S1.skymask(ivar, andmask, om, ngrow=ngrow_k))
             guard.check(step=step, ngrow=ngrow, dtype=dt)
-            if nk != 'py':
-                plain = self.S1.skymask(iv_in.copy(), None if andmask is None else andmask.copy(), om_in.copy(), ngrow=ngrow)
-                out.expect(same_result(got, plain), 'skymask-scalar-kind',
-                           'ngrow given as %s gives a different result than the plain Python int' % nk, step=step, ngrow=ngrow)
+            if nk != 'py' or P.nonplain:
+                plain = self.S1.skymask(iv_in.copy(), native(andmask0), om_in.copy(), ngrow=ngrow)
+                out.expect(same_result(got, plain), 'skymask-differs-from-plain-call',
+                           'ngrow given as %s / arrays presented as %r give a different result than a plain int with plain native '
+                           'arrays' % (nk, P.pres), step=step, ngrow=ngrow, table=table)
                 out.count('scalar_kind_calls_compared_with_plain_call')
             if dt in ('int16', 'int32', 'int64'):
                 out.count('skymask_signed_dtype_cases')
             out.count('skymask_dtype_' + dt)
             if not out.expect(got.shape == (nr, npx), 'skymask-shape', 'result shape %r' % (got.shape,)):
                 return
-            exp, flagged, dil = R.skymask_ref(iv_in, case['mask'], (BADSKYCHI, REDMONSTER), ngrow)
+            exp, flagged, dil = R.skymask_ref(iv_in, case['mask'], (b1, b2), ngrow)
             got = got.astype(np.float64)
             z = dil & (got != 0)
             out.expect(not z.any(), 'skymask-not-zeroed',
-                       'inverse variance within ngrow=%d pixels of a BADSKYCHI/REDMONSTER pixel is not zero' % ngrow,
+                       'inverse variance within ngrow=%d pixels of a BADSKYCHI/REDMONSTER pixel (bits %d/%d of table %s) is not zero' % (ngrow, b1, b2, table),
                        where=np.argwhere(z)[:10], flagged=np.argwhere(flagged)[:20], dtype=dt, step=step)
             t = ~dil & (got != iv_in)
             out.expect(not t.any(), 'skymask-touched',
